@@ -5,6 +5,8 @@ From TS Require Import Model.Str Model.Outcome Model.Unicode Model.Types Model.P
 From TS Require Import Spec.C10Spec.
 From TS Require Proofs.C10Lex Proofs.C10_TS Proofs.C10_TSFile Proofs.C10_KT Proofs.C10_SC Proofs.C10_GO Proofs.C10_GOFile
                 Proofs.C10_SW Proofs.C10_SWFile Proofs.C10_PY Proofs.C10_PYFile Proofs.C10_KW Proofs.C10.
+From TS Require Import Spec.C10TsGrammar.
+From TS Require Proofs.C10_TSGrammarTok Proofs.C10_TSGrammarParse Proofs.C10_TSGrammar Proofs.C10_TSGrammarFile.
 From TS Require Props.C10.
 
 Goal forall (cfg : c10_lexcfg) (t : str), c10_balanced cfg t = true ->
@@ -126,3 +128,46 @@ Goal exists cfg pd text, known_C10 CPY [] pd = ["C10-python-empty-union"%string]
     py_generate uc_exec cfg pd = Ok text /\ contains_sub (lit "E = Union[]") text = true.
 Proof. exact Props.C10.C10_python_empty_union_refuted. Qed.
 Print Assumptions Props.C10.C10_python_empty_union_refuted.
+Goal forall (a : str) (ta : list c10_tok) (b : str) (tb : list c10_tok),
+    c10_ts_tokens (S (List.length a)) a = Some ta -> c10_ts_tokens (S (List.length b)) b = Some tb ->
+    Proofs.C10_TSGrammarTok.glue a b = true ->
+    c10_ts_tokens (S (List.length (a ++ b))) (a ++ b) = Some (ta ++ tb).
+Proof. exact Props.C10.C10_ts_tokens_frame. Qed.
+Print Assumptions Props.C10.C10_ts_tokens_frame.
+Goal forall (t rest : list c10_tok),
+    Proofs.C10_TSGrammarParse.Gr Proofs.C10_TSGrammarParse.STy t -> Proofs.C10_TSGrammarParse.fol rest ->
+    c10_ts_type (t ++ rest) = Some rest.
+Proof. exact Props.C10.C10_ts_type_grammar_complete. Qed.
+Print Assumptions Props.C10.C10_ts_type_grammar_complete.
+Goal forall ds : list ts_decl, Forall Proofs.C10_TSGrammar.c10_tsg_decl_ok ds ->
+    c10_ts_recognise (List.concat (map ts_render_decl ds)) = Some (List.length ds).
+Proof. exact Props.C10.C10_ts_layout_grammar. Qed.
+Print Assumptions Props.C10.C10_ts_layout_grammar.
+Goal forall (uc : unicode) (cfg : ts_config) (pd : parsed) (text : str),
+    unicode_ok uc -> Proofs.C10_TSFile.c10_ts_cfg_ok cfg = true -> Proofs.C10_TSGrammarFile.c10_tsg_cfg_ok cfg ->
+    dom_C10 CTS pd = true -> Proofs.C10_TSGrammarFile.c10_tsg_dom pd ->
+    ts_generate uc cfg pd = Ok text ->
+    exists n : nat, c10_ts_recognise text = Some n /\ (List.length (items_of pd) <= n)%nat.
+Proof. exact Props.C10.C10_grammar_typescript. Qed.
+Print Assumptions Props.C10.C10_grammar_typescript.
+Goal forall (uc : unicode) (cfg : ts_config) (pd : parsed) (text : str),
+    unicode_ok uc -> Proofs.C10_TSFile.c10_ts_cfg_ok cfg = true -> Proofs.C10_TSGrammarFile.c10_tsg_cfg_simple cfg = true ->
+    dom_C10 CTS pd = true -> Proofs.C10_TSGrammarFile.c10_tsg_dom_simple pd = true ->
+    ts_generate uc cfg pd = Ok text ->
+    exists n : nat, c10_ts_recognise text = Some n /\ (List.length (items_of pd) <= n)%nat.
+Proof. exact Props.C10.C10_grammar_typescript_simple. Qed.
+Print Assumptions Props.C10.C10_grammar_typescript_simple.
+Goal Proofs.C10_TSFile.c10_ts_cfg_ok Proofs.C10_TSGrammarFile.g_cfg = true /\ Proofs.C10_TSGrammarFile.c10_tsg_cfg_ok Proofs.C10_TSGrammarFile.g_cfg /\
+  dom_C10 CTS Proofs.C10_TSGrammarFile.g_prog = true /\ Proofs.C10_TSGrammarFile.c10_tsg_dom Proofs.C10_TSGrammarFile.g_prog /\
+  known_C10 CTS [] Proofs.C10_TSGrammarFile.g_prog = [] /\
+  ts_generate uc_exec Proofs.C10_TSGrammarFile.g_cfg Proofs.C10_TSGrammarFile.g_prog = Ok Proofs.C10_TSGrammarFile.g_text /\
+  c10_ts_recognise Proofs.C10_TSGrammarFile.g_text = Some 8%nat /\
+  contains_sub (lit "export interface Person<T, U> {") Proofs.C10_TSGrammarFile.g_text = true /\
+  contains_sub (lit "readonly ""first-name""?: string | null;") Proofs.C10_TSGrammarFile.g_text = true /\
+  contains_sub (lit "| { type: ""Opt"", content?: number | null }") Proofs.C10_TSGrammarFile.g_text = true /\
+  contains_sub (lit "export const ReplacerFunc = ") Proofs.C10_TSGrammarFile.g_text = true /\
+  c10_ts_recognise (firstn (List.length Proofs.C10_TSGrammarFile.g_text - 3) Proofs.C10_TSGrammarFile.g_text) = None /\
+  c10_ts_recognise (Proofs.C10_TSGrammarFile.g_drop_first 123 Proofs.C10_TSGrammarFile.g_text) = None /\
+  c10_ts_recognise (Proofs.C10_TSGrammarFile.g_subst_first 61 58 Proofs.C10_TSGrammarFile.g_text) = None.
+Proof. exact Props.C10.C10_grammar_typescript_witness. Qed.
+Print Assumptions Props.C10.C10_grammar_typescript_witness.
